@@ -124,23 +124,8 @@ Theorem C04_construction_order_independent : forall (St : Type) (d1 d2 : design 
   propagateAll (with_combs d1 (reorder (combs d1) l1)) vs = propagateAll (with_combs d2 (reorder (combs d2) l2)) vs.
 Proof. exact construction_order_independent_thm. Qed.
 
-(* <C04-passlimit> *)
-(* ---------------------------------------------------------------- refuted clause (genuine defect, DESIGN.md section 7 #14) *)
-
-(* "acyclic netlists are sorted" is FALSE under any pass limit: for EVERY K, the chain of K+1 buffers instantiated
-   sink-first is acyclic (ranked), yet refused when K passes are allowed; K+1 passes sort it. *)
-Theorem C04_limit_refuted : forall K,
-  let succ := chain_succ (S K) in let l := rev_chain (S K) in
-  NoDup l /\ closed succ l /\ ranking succ l (fun x => x) /\
-  sort_fuel succ K l = LimitError /\ sort_fuel succ (S K) l = Sorted (seq 0 (S K)).
-Proof. exact limit_refuted_thm. Qed.
-
-(* in particular at the code's constant: 1001 leaves, limit 1000 *)
-Theorem C04_limit_1000_refuted :   let n := S py4hw_loop_limit in
-  ranking (chain_succ n) (rev_chain n) (fun x => x) /\ sort_fuel (chain_succ n) py4hw_loop_limit (rev_chain n) = LimitError.
-Proof. exact limit_1000_refuted_thm. Qed.
-
-(* </C04-passlimit> *)
+(* C04-passlimit: repaired in /repo 4992c48 (the limit scales with the number of leaves); the refutation of every CONSTANT limit
+   (limit_refuted_thm in Proofs/C04/Main.v) no longer describes the code and is not a property theorem any more *)
 (* the number of passes the sorter needs on n leaves instantiated sink-first is exactly n (so no constant limit works;
    the conjectured bound "n passes always suffice" is tight if true) *)
 Theorem C04_pass_count_chain : forall n K, 1 <= n ->
@@ -211,10 +196,6 @@ Print Assumptions C04_fixpoint_unique.
 Print Assumptions C04_order_independent.
 Print Assumptions C04_sorted_netlist_settles.
 Print Assumptions C04_construction_order_independent.
-(* <C04-passlimit-pa> *)
-Print Assumptions C04_limit_refuted.
-Print Assumptions C04_limit_1000_refuted.
-(* </C04-passlimit-pa> *)
 Print Assumptions C04_pass_count_chain.
 Print Assumptions C04_more_passes_never_hurt.
 Print Assumptions C04_scaled_limit_no_worse.
